@@ -9,8 +9,9 @@
      label, and every entry is a stored rule key or a step of an explanation
      path — for EVERY order in which the set of labels without a rule is
      iterated.
-   * C02_one_rule_per_class: the dictionary is a function (one entry per
-     left-hand label) by construction.
+   * C02_one_rule_per_class: the dictionary the extractor returns has pairwise
+     distinct left-hand labels (one entry per left-hand label), because it is
+     built by dictionary assignments only.
    * C02_productive_decided: the per-specification productivity verdict the
      check computes with the table-method model means "every class of the
      specification pumps in the least-fixed-point sense" (C03).
@@ -25,8 +26,11 @@ From CSS Require Import Base.Sx Forest.Spec Forest.Model Forest.Run Forest.Theor
   Spec.Extractor Spec.ExtractorProofs Spec.ExtractorRun.
 Import ListNotations.
 
+(* AUDIT: the find_path contract used to be asked for EVERY pair of labels (forall l t); it is
+   now asked only for the labels `order` iterates over, the only ones the extractor calls
+   find_path on (the old form is implied: ExtractorProofs.extract_closed). *)
 Theorem C02_closed : forall rep fpath stored tree root order d,
-  (forall l t, rep l = rep t ->
+  (forall l, In l order -> forall t, rep l = rep t ->
      fpath l t <> [] /\ hd O (fpath l t) = l /\ last (fpath l t) O = t) ->
   extract rep fpath stored tree root order = Some d ->
   (forall d0 e2p, decompositions rep stored tree [] [] = Some (d0, e2p) ->
@@ -34,10 +38,11 @@ Theorem C02_closed : forall rep fpath stored tree root order d,
   (forall e, In e d -> forall c, In c (snd e) -> dom d c = true) /\
   dom d root = true /\
   (forall e, In e d -> In e stored \/ exists l t p c, step_of (fpath l t) p c /\ e = (p, [c])).
-Proof. intros rep fpath stored tree root order d Hf. exact (extract_closed rep fpath Hf stored tree root order d). Qed.
+Proof. intros rep fpath stored tree root order d Hf. exact (extract_closed_order rep fpath stored tree root order d Hf). Qed.
 
-(* a dictionary built by assignments has one entry per key *)
-Theorem C02_one_rule_per_class : forall d k v,
+(* a dictionary updated by an assignment has one entry per key (kept as a lemma: this used to be
+   the whole of C02_one_rule_per_class, which said nothing about the extractor) *)
+Lemma C02_assign_lookup : forall d k v,
   lookup (assign d k v) k = Some v /\
   forall x, x <> k -> lookup (assign d k v) x = lookup d x.
 Proof.
@@ -46,6 +51,15 @@ Proof.
   - intros x Hx. rewrite lookup_assign. destruct (Nat.eqb k x) eqn:E; auto.
     apply Nat.eqb_eq in E. congruence.
 Qed.
+
+(* AUDIT: restated about the EXTRACTOR'S RESULT.  Every rules dictionary the extractor returns has
+   pairwise distinct left-hand labels, and its entries are exactly what looking a label up
+   returns: no class is the left-hand side of two rules. *)
+Theorem C02_one_rule_per_class : forall rep fpath stored tree root order d,
+  extract rep fpath stored tree root order = Some d ->
+  NoDup (map fst d) /\
+  forall p cs, In (p, cs) d <-> lookup d p = Some cs.
+Proof. exact extract_functional. Qed.
 
 (* meaning of the productivity verdict computed on each returned specification *)
 Theorem C02_productive_decided : forall ks fuel st,
@@ -67,6 +81,84 @@ Example C02_nonvacuous :
   extract rep fpath [(5, [1; 2]); (1, [])]%nat [(0, [1; 1]); (1, [])]%nat 0%nat [0; 2]%nat
   = Some [(5, [1; 2]); (1, []); (0, [5]); (2, [1])]%nat.
 Proof. vm_compute. reflexivity. Qed.
+
+(* ------------------------------------------------------------------------
+   NON-VACUITY (audit): every result of this file APPLIED to a concrete instance.
+   Extractor instance: the one of C02_nonvacuous above — two stored rules, a two-node proof tree
+   at equivalence level, two labels (root 0 and right-hand label 2) that get their rule from an
+   explanation path. *)
+Definition c2_rep (l : nat) : nat := match l with 5%nat => 0%nat | 2%nat => 1%nat | _ => l end.
+Definition c2_fpath (l t : nat) : list nat := if Nat.eqb l t then [l] else [l; t].
+Definition c2_stored : list rkey := [(5, [1; 2]); (1, [])]%nat.
+Definition c2_tree : list rkey := [(0, [1; 1]); (1, [])]%nat.
+Definition c2_order : list nat := [0; 2]%nat.
+Definition c2_d : list rkey := [(5, [1; 2]); (1, []); (0, [5]); (2, [1])]%nat.
+
+Lemma c2_fpath_ok : forall l, In l c2_order -> forall t, c2_rep l = c2_rep t ->
+  c2_fpath l t <> [] /\ hd O (c2_fpath l t) = l /\ last (c2_fpath l t) O = t.
+Proof.
+  intros l _ t _. unfold c2_fpath. destruct (Nat.eqb l t) eqn:E.
+  - apply Nat.eqb_eq in E. subst t. repeat split; discriminate.
+  - repeat split; discriminate.
+Qed.
+Lemma c2_extract : extract c2_rep c2_fpath c2_stored c2_tree 0%nat c2_order = Some c2_d.
+Proof. vm_compute. reflexivity. Qed.
+(* the iteration order covers the labels without a rule after the decompositions (0 and 2) *)
+Lemma c2_cover : forall d0 e2p, decompositions c2_rep c2_stored c2_tree [] [] = Some (d0, e2p) ->
+  forall l, no_lhs d0 0%nat l = true -> In l c2_order.
+Proof.
+  intros d0 e2p H. vm_compute in H. injection H as <- <-. intros l Hl.
+  destruct l as [|[|[|[|[|[|l]]]]]]; vm_compute in Hl; try discriminate; simpl; auto.
+Qed.
+
+Example C02_closed_nonvacuous :
+  (forall e, In e c2_d -> forall c, In c (snd e) -> dom c2_d c = true) /\
+  dom c2_d 0%nat = true /\
+  (forall e, In e c2_d ->
+     In e c2_stored \/ exists l t p c, step_of (c2_fpath l t) p c /\ e = (p, [c])).
+Proof.
+  exact (C02_closed c2_rep c2_fpath c2_stored c2_tree 0%nat c2_order c2_d c2_fpath_ok c2_extract c2_cover).
+Qed.
+(* the conclusion discriminates: with the iteration order missing label 2 the extractor's
+   dictionary is NOT closed (the coverage premise is then false, and the conclusion too) *)
+Example C02_closed_near_miss :
+  exists d, extract c2_rep c2_fpath c2_stored c2_tree 0%nat [0%nat] = Some d /\
+            dom d 0%nat = true /\ dom d 2%nat = false /\ In (5, [1; 2])%nat d.
+Proof. eexists. split; [vm_compute; reflexivity|]. vm_compute. auto. Qed.
+
+Example C02_one_rule_per_class_nonvacuous :
+  NoDup (map fst c2_d) /\ forall p cs, In (p, cs) c2_d <-> lookup c2_d p = Some cs.
+Proof.
+  exact (C02_one_rule_per_class c2_rep c2_fpath c2_stored c2_tree 0%nat c2_order c2_d c2_extract).
+Qed.
+(* the stored rule for label 1 occurs twice in the tree walk / the second assignment to an existing
+   label overwrites instead of adding a second entry: a tree naming class 1 twice still gives one
+   entry for it; and a list with two entries for one label fails the conclusion *)
+Example C02_one_rule_per_class_discriminates :
+  extract c2_rep c2_fpath c2_stored (c2_tree ++ [(1, [])])%nat 0%nat c2_order = Some c2_d /\
+  ~ NoDup (map fst [(1, [2]); (1, [])]%nat).
+Proof.
+  split; [vm_compute; reflexivity|]. simpl. intros H. inversion H as [|x l Hn _]; subst.
+  apply Hn. left. reflexivity.
+Qed.
+
+(* productivity verdict: the forest keys of the two-class specification of Props/C01.v
+   (0 -> 1 shift 0 ; 1 -> 0 0 shifts 1 1) plus a third rule 2 -> 3 (shift 1) whose child has no
+   rule.  Both directions of the equivalence are used: the verdict `true` gives pumps, and the
+   verdict `false` refutes pumps. *)
+Definition c2_keys : list fkey :=
+  [mkkey 0 [(1%nat, 0%Z)]; mkkey 1 [(0%nat, 1%Z); (0%nat, 1%Z)]; mkkey 2 [(3%nat, 1%Z)]].
+Lemma c2_run : exists st, run pick0 100 init (map AddKey c2_keys) = Some st /\
+  map (fun c => snd (is_pumping st c)) [0; 1; 2; 3]%nat = [true; true; false; false].
+Proof. eexists. split; vm_compute; reflexivity. Qed.
+Example C02_productive_decided_nonvacuous :
+  pumps c2_keys 0 /\ pumps c2_keys 1 /\ ~ pumps c2_keys 2 /\ ~ pumps c2_keys 3.
+Proof.
+  destruct c2_run as (st & Hr & Hv). simpl in Hv. injection Hv as H0 H1 H2 H3.
+  pose proof (C02_productive_decided c2_keys 100 st Hr) as D.
+  split; [apply D; exact H0|]. split; [apply D; exact H1|].
+  split; intros P; apply D in P; simpl in P; [rewrite H2 in P|rewrite H3 in P]; discriminate.
+Qed.
 
 Print Assumptions C02_closed.
 Print Assumptions C02_one_rule_per_class.
